@@ -237,7 +237,7 @@ CHECKS = {
         assumptions=["d is the nesting depth reported by the independent reference parser (1 for DHCPv4)", "TotalAlloc is cumulative and unaffected by GC, which stays enabled"],
     ),
     "C12": dict(
-        min_counters=['scenarios_with_a_read_fault', 'seq.transmissions_checked', 'transmissions_checked'],
+        min_counters=['scenarios_with_a_read_fault', 'scenarios_with_a_failing_write', 'seq.transmissions_checked', 'transmissions_checked'],
         title="Retransmission follows the configured schedule exactly",
         stages=[dict(name="sched", shards={"quick": 8, "thorough": 16}, timeout={"quick": 900, "thorough": 3600})],
         rule="full grid, both clients (real nclient4/nclient6 over a scripted PacketConn inside testing/synctest bubbles): T in {1ms,10ms,250ms,5s} (+ {3ns,7ms,100ms,1s,64s} thorough) x n in {-1,0,1..6} x request size "
